@@ -1045,6 +1045,30 @@ val in_rfc_fuel : nat -> str -> bool
 
 val in_rfc : str -> bool
 
+val s_length0 : str
+
+val s_count0 : str
+
+val s_value0 : str
+
+val s_match0 : str
+
+val s_search0 : str
+
+val id_vfn : nat
+
+val id_varg : nat
+
+val id_lfn : nat
+
+val call1 : str -> gexp -> gexp
+
+val call2 : str -> gexp -> gexp -> gexp
+
+val bf_grammar : grammar
+
+val in_bf : str -> bool
+
 val singular_seg : seg -> bool
 
 val singular : seg list -> bool
@@ -1480,6 +1504,8 @@ val op_all_orders : z list -> z list
 val op_find_nd : z list -> z list
 
 val op_nd_results : z list -> z list
+
+val op_in_bf : z list -> z list
 
 val op_map_re : z list -> z list
 
